@@ -3,7 +3,8 @@ C02 — no lost wake-up: executable protocol models (core Lean only; linked into
 
 `Monitor`  : src/tbb/concurrent_monitor.h — N sleepers running `wait(pred, node)` (prepare_wait / predicate /
              commit_wait / cancel_wait, incl. the skipped-wake-up pumping in prepare_wait and ~sleep_node) against
-             M notifiers running `[state change;] notify(pred) | notify_all | notify_one | abort_all` (fenced or
+             M notifiers running `[state change;] notify(pred) | notify_all | notify_one | notify_one(pred) |
+             abort_all` (fenced or
              `_relaxed` entry points).  One model step = one atomic access of the code (the monitor's mutex is an
              abstract lock: acquire = the successful `my_flag.exchange(1)`, release = `my_flag.exchange(0)`); the
              non-atomic fields of a node (`my_epoch`, `my_skipped_wakeup`, `my_aborted`, list links) are updated in the
@@ -30,14 +31,20 @@ inductive NKind where
   | all               -- notify_all
   | one               -- notify_one (front of the waitset)
   | abort             -- abort_all
+  | onec (c : Nat)    -- notify_one_relaxed(pred) with pred = (context == c): the FIRST matching node met by the scan
+                      -- `for (n = my_waitset.last(); n != end; n = n->prev)` (newest waiter first), then `break`
   deriving Repr, DecidableEq
 
-/-- does the notification dequeue *every* waiter whose context is `x`? -/
+/-- does the notification's predicate match a waiter whose context is `x`?  (`notify(pred)`, `notify_all`, `abort_all`
+dequeue *every* such waiter; `notify_one(pred)` dequeues one of them — all of them when at most one thread ever waits
+with that context, which is what `compatB` demands of a `notify_one(pred)` that announces a state change; the
+predicate-less `notify_one` promises nothing about contexts.) -/
 def NKind.accepts : NKind → Nat → Bool
   | .ctx c, x => c == x
   | .all, _ => true
   | .abort, _ => true
   | .one, _ => false
+  | .onec c, x => c == x
 
 /-- one `monitor.wait(pred, node(ctx))` call; `pred` = user condition number `cond` is true -/
 structure WOp where
@@ -97,7 +104,7 @@ inductive NPc where
   | lock
   | epoch     -- my_epoch.store(my_epoch.load+1)                                     [under the lock]
   | flush     -- notify_all / abort_all: my_waitset.flush_to(temp): count.store(0)   [under the lock]
-  | scan      -- notify(pred) / notify_one: my_waitset.remove(*n): count.store(count-1); temp.add(n)
+  | scan      -- notify(pred) / notify_one / notify_one(pred): my_waitset.remove(*n): count.store(count-1); temp.add(n)
   | mark      -- to_wait_node(n)->my_is_in_list.store(false)                         [under the lock]
   | unlock
   | v         -- to_wait_node(n)->notify(): semaphore().V()   (abort_all: my_aborted = true first)
@@ -175,10 +182,12 @@ def stepS (s : St) (i : Nat) (sl : Sleeper) : St :=
   | .cUnlock => { s with lock := none }.setS i sl.afterCancel
   | .dtor => if sl.sem = 0 then s else s.setS i { sl with sem := sl.sem - 1 }.fresh
 
-/-- the node a `scan` step dequeues: notify(pred) walks from the back, notify_one takes the front -/
+/-- the node a `scan` step dequeues: notify(pred) and notify_one(pred) walk from the back (`last()`, then `prev`) and
+take the first node whose context satisfies the predicate, notify_one takes the front -/
 def scanPick (s : St) (k : NKind) : Option Nat :=
   match k with
   | .ctx c => s.waitset.reverse.find? (fun x => s.ctxOf x == c)
+  | .onec c => s.waitset.reverse.find? (fun x => s.ctxOf x == c)
   | .one => s.waitset.head?
   | _ => none
 
@@ -191,6 +200,7 @@ def afterEpoch (s : St) (k : NKind) : NPc :=
   | .all | .abort => if s.waitset.isEmpty then .unlock else .flush
   | .ctx _ => if (scanPick s k).isSome then .scan else .unlock
   | .one => if (scanPick s k).isSome then .scan else .unlock
+  | .onec _ => if (scanPick s k).isSome then .scan else .unlock
 
 /-- after an in_list store: next node to mark (notify_all / abort_all), next node to dequeue (notify(pred)) or unlock -/
 def afterMark (s : St) (n : Notifier) : NPc :=
@@ -198,6 +208,7 @@ def afterMark (s : St) (n : Notifier) : NPc :=
   | .all | .abort => if n.marked + 1 < n.temp.length then .mark else .unlock
   | .ctx _ => afterEpoch s n.kind
   | .one => .unlock
+  | .onec _ => .unlock      -- `break` after the first match
 
 def modS (s : St) (x : Nat) (f : Sleeper → Sleeper) : St :=
   match s.slp[x]? with | some sl => s.setS x (f sl) | none => s
@@ -246,6 +257,23 @@ def init (ws : List (List WOp)) (ns : List (List NOp)) : St :=
 
 /-- The interleaving system: `ws` = the sleepers' programs (thread ids `0 … ws.length-1`), `ns` = the notifiers'. -/
 def sys (ws : List (List WOp)) (ns : List (List NOp)) : Sys St := { init := init ws ns, step := step }
+
+/-! ### the dequeue order of one notification on a quiescent wait set (tie to the order observed on the real code) -/
+
+/-- the nodes whose `my_is_in_list` notifier thread `t` clears (in order) during its next `fuel` steps -/
+def markSeq (s : St) (t : Tid) : Nat → List Nat
+  | 0 => []
+  | fuel + 1 =>
+    match s.ntf[t - s.slp.length]? with
+    | some n => (if n.pc == .mark && !n.ops.isEmpty then (n.temp[n.marked]?).toList else []) ++ markSeq (step s t) t fuel
+    | none => []
+
+/-- Sleepers `0 … n-1` with the contexts `ctxs` enqueue one after the other (arrival order = index order) and park;
+then one notifier runs the notification `k`: the sequence of nodes it dequeues, as computed by the model's steps. -/
+def obsDequeue (ctxs : List Nat) (k : NKind) : List Nat :=
+  let ws := (List.range ctxs.length).map fun i => [(⟨ctxs.getD i 0, i⟩ : WOp)]
+  let s1 := (sys ws [[.sig none k true]]).run ((List.range ctxs.length).flatMap fun i => List.replicate 9 i)
+  markSeq s1 ctxs.length (4 * ctxs.length + 12)
 
 /-! ### the access a step performs, for trace replay: `kind var order values…` (`-` = blocked or finished) -/
 
@@ -757,7 +785,8 @@ def splitOn1 (s : String) (c : Char) : List String := s.splitOn (String.singleto
 
 def parseKind (s : String) : Option NKind :=
   if s == "all" then some .all else if s == "one" then some .one else if s == "abort" then some .abort
-  else if s.startsWith "c" then (s.drop 1).toString.toNat?.map NKind.ctx else none
+  else if s.startsWith "c" then (s.drop 1).toString.toNat?.map NKind.ctx
+  else if s.startsWith "p" then (s.drop 1).toString.toNat?.map NKind.onec else none
 
 def parseWOp (w : String) : Option WOp :=
   match splitOn1 w ',' with
